@@ -214,3 +214,40 @@ def params_of(fn):
 
 def param_name(fn, l):
     return fn.argnames.get(l, "_%d" % l)
+
+
+def write_events(fn, root):
+    """Everything that writes the storage rooted at local `root`: stores to places based at the root
+    (directly or through views), and calls handing a mutable view to a non-view function.
+    Returns list of (bb, kind, text, call_or_None)."""
+    from ..engines import views_of, RESLICE
+    views = views_of(fn, [root])
+    out = []
+    for b, i, st in fn.assigns():
+        pl = st["place"]
+        if pl["l"] == root and pl["p"]:
+            out.append((b, "store", "store into `%s` at %s:%s" % (fn.local_name(root), fn.file, _line(st)), None))
+        elif pl["l"] in views and pl["l"] != root and "deref" in pl["p"]:
+            out.append((b, "store", "store through a view of `%s` at %s:%s" % (fn.local_name(root), fn.file, _line(st)), None))
+    for c in fn.calls():
+        if fn.blocks[c.bb]["cleanup"]:
+            continue
+        if c.path in RESLICE or c.rpath in RESLICE or (fn.prog is not None and c.rkey in fn.prog.reslicers):
+            continue
+        for i, a in enumerate(c.args):
+            if a.get("k") in ("copy", "move") and a["l"] in views and fn.locals[a["l"]]["t"].startswith("&mut"):
+                out.append((c.bb, "call", "%s at %s" % (c.rpath.split("::")[-1], c.loc()), c))
+                break
+    return out
+
+
+def _line(st):
+    ln = st.get("ln")
+    return ln[0] if isinstance(ln, list) else ln
+
+
+def equal_widths(fn, c):
+    """(ok, widths): static widths of both ct_eq operands; ok unless both are known and differ"""
+    ws = [array_width(fn, a) for a in c.args]
+    known = [w for w in ws if w is not None]
+    return (len(known) < 2 or known[0] == known[1]), ws
